@@ -374,30 +374,59 @@ func (s *Service) Route(ctx context.Context, msg interface{}) ([]string, bool, e
 	if !have {
 		return nil, true, nil
 	}
-	mid, is := x.(string)
-	if !is {
+	switch vv := x.(type) {
+	case string:
+		if vv == "*" {
+			// Explicitly every machine.
+			return nil, true, nil
+		}
+		if s.toService(ctx, vv, msg) {
+			return nil, false, nil
+		}
+		return []string{vv}, false, nil
+	case []interface{}:
+		// Each machine (or service) named in the list sees the
+		// message once; members that are repeated or aren't
+		// strings contribute nothing.
+		mids := make([]string, 0, len(vv))
+		seen := make(map[string]bool, len(vv))
+		for _, y := range vv {
+			mid, is := y.(string)
+			if !is || seen[mid] {
+				continue
+			}
+			seen[mid] = true
+			if !s.toService(ctx, mid, msg) {
+				mids = append(mids, mid)
+			}
+		}
+		return mids, false, nil
+	default:
 		// Not a machine id, so ignore it?
 		return nil, true, nil
 	}
-	switch mid {
+}
+
+// toService hands the message to the service with the given name (if
+// there is such a service) and reports whether it did.
+func (s *Service) toService(ctx context.Context, name string, msg interface{}) bool {
+	switch name {
 	case "ws":
 		s.wsClientC <- msg
-		return nil, false, nil
 	case "http":
 		if err := s.toHTTP(ctx, msg); err != nil {
 			// Not a "Route" problem.
 			s.err(err)
 		}
-		return nil, false, nil
 	case "timers":
 		if err := s.toTimers(ctx, msg); err != nil {
 			// Not a "Route" problem.
 			s.err(err)
 		}
-		return nil, false, nil
 	default:
-		return []string{mid}, false, nil
+		return false
 	}
+	return true
 }
 
 func (s *Service) err(err error) {
